@@ -75,6 +75,27 @@ def write_grid(tier, post=0):
     return g
 
 
+def write_fault_grid(tier):
+    """Write sessions in which the output file fails (badbit) at an arbitrary moment: TLC places the fault between any
+    two steps of any interleaving; every such edge is replayed on the real File (the driver sets badbit on the real
+    fstream between two scheduler steps)."""
+    g = [
+        dict(name="wf_eq", params=dict(B=48, Q=1, C=48, POST=0, RP=1), items=[can(1), can(2)], fault=1),
+        # more data after the fault than buffer + queue hold: the workers must keep draining
+        dict(name="wf_many", params=dict(B=30, Q=1, C=30, POST=0, RP=0), items=[can(1), can(2), can(3)], fault=1),
+    ]
+    if tier == "thorough":
+        g += [
+            dict(name="wf_cbig", params=dict(B=48, Q=1, C=100, POST=0, RP=1), items=[can(1), can(2), can(3)], fault=1),
+            dict(name="wf_t115", params=dict(B=16, Q=1, C=200, POST=0, RP=1), items=[can(1), ["t115", 2]], fault=1),
+            dict(name="wf_empty", params=dict(B=48, Q=1, C=48, POST=0, RP=1), items=[], fault=1),
+        ]
+    return g
+
+
+FAULT_INV = ["DeadlockFree", "FaultPrefix", "FileOutUnique", "StatsExact", "NoOversize", "AllDeleted", "QueueBounded",
+             "HeldBounded"]
+
 READ_INV = ["DeadlockFree", "DeliveredIsPrefix", "NullIsLast", "EofOnlyAfterLast", "DoneDeliveredAll",
             "PipelineOrder", "StatsExact", "Accounted", "QueueBounded", "HeldBounded", "NoStaleAccess"]
 WRITE_INV = ["DeadlockFree", "FileOutUnique", "NoOversize", "StatsExact", "AllDeleted", "QueueBounded", "HeldBounded"]
@@ -115,8 +136,11 @@ def prepare(kind, scs, tag, variant="sched"):
             d["held"] = write_held_bound(d)
             d.setdefault("spur", 0)
     spur = {s["name"]: s.get("spur", 0) for s in scs}
+    fault = {s["name"]: s.get("fault", 0) for s in scs}
     for d in descs:
         d["spur"] = spur.get(d["name"], 0)
+        if kind == "w":
+            d["fault"] = fault.get(d["name"], 0)     # 1: the output file may fail at any moment (WriteSession!IOFail)
     return exes[drv], scen, descs
 
 
